@@ -13,7 +13,8 @@
   OBLIGATION c15_source_control_arm
   OBLIGATION c15_string_violated_by_decimal_escape
   OBLIGATION c15_value_violated_by_decimal_escape
-  OPEN c15_string_lexer_refines_spec
+  OBLIGATION c15_string_lexer_refines_spec
+  OBLIGATION c15_string_token_refines_spec
   OPEN c15_float_text_round_trip
 
   Floats are opaque tokens in the model: `c15_value` covers them as far as token placement and
@@ -146,10 +147,25 @@ example : wellFormed (.obj [("a".toList, .list [.int 1, .str ['x', Char.ofNat 27
   simp [wellFormed, isName, nameStart, nameChar, isAlpha, isDigit, isFloatTok, isIntTok, intBodyOk, spanP,
     isExp, digits1, numChar, headIs]
 
-/-- OPEN: the model of the parser's string rule agrees with the reference reading on EVERY text,
-    not only on printed text (both are proved to invert the printer: `c15_string`,
-    `c15_string_spec`). -/
-def c15_string_lexer_refines_spec : Prop := ∀ cs : List Char, lexString cs = lexQuoted cs
+/-- The model of the parser's string rule (grammar scan `string_character*` up to the closing
+    quote, then `string_value` on the raw content) agrees with the reference reading of a
+    StringValue on EVERY text after the opening quote, not only on printed text: the same texts
+    are accepted, with the same decoded string and the same rest.  In particular `string_value`
+    never reaches one of its panicking arms on content the grammar let through. -/
+theorem c15_string_lexer_refines_spec : ∀ cs : List Char, lexString cs = lexQuoted cs :=
+  lexString_eq_lexQuoted
+
+/-- … hence at the token level: wherever the reference reading of a value sees a (non-block)
+    string literal, it reads what the model of the parser reads. -/
+theorem c15_string_token_refines_spec (f : Nat) (r : List Char) (hb : isBlockStart r = false) :
+    parseVal (f + 1) ('"' :: r) = (lexStringToken ('"' :: r)).map (fun p => (.str p.1, p.2)) := by
+  have hq : ('"' = '[') = False := by decide
+  have hq2 : ('"' = '{') = False := by decide
+  simp only [parseVal, lexStringToken, hq, hq2, if_false, if_true, hb, Bool.false_eq_true,
+    lexString_eq_lexQuoted]
+  cases lexQuoted r with
+  | none => rfl
+  | some p => rfl
 
 /-- OPEN (not expressible in the model, floats being opaque tokens): the text the number printer
     writes for a double is read back as the same double.  Differential only; violated by the
